@@ -5,6 +5,7 @@ import (
 	"fmt"
 	"os"
 	"path/filepath"
+	"strings"
 
 	"verifharness/appdrv"
 )
@@ -48,7 +49,14 @@ func init() {
 			if err != nil {
 				return err
 			}
-			sc, r, err := appdrv.RunRandom(s, g, na, p, root, sink.Emit, appdrv.ProjOpts{EVM: *evm}, nil)
+			scfile := fmt.Sprintf("sc-%d.json", s)
+			emit := func(ev appdrv.J) {
+				if ev["ev"] == "Genesis" {
+					ev["scfile"] = scfile
+				}
+				sink.Emit(ev)
+			}
+			sc, r, err := appdrv.RunRandom(s, g, na, p, root, emit, appdrv.ProjOpts{EVM: *evm}, nil)
 			if err != nil {
 				return err
 			}
@@ -56,12 +64,82 @@ func init() {
 				dead++
 			}
 			if *scdir != "" {
-				_ = appdrv.SaveScenario(sc, filepath.Join(*scdir, fmt.Sprintf("sc-%d.json", s)))
+				_ = appdrv.SaveScenario(sc, filepath.Join(*scdir, scfile))
 			}
 			_ = os.RemoveAll(root)
 		}
 		sink.Flush()
 		fmt.Printf("{\"traces\":%d,\"events\":%d,\"dead\":%d}\n", *n, sink.N, dead)
+		return nil
+	})
+}
+
+func init() {
+	register("directed", "run the directed scenarios on the real application and record traces", func(args []string) error {
+		fs := flag.NewFlagSet("directed", flag.ExitOnError)
+		out := fs.String("out", "", "ndjson trace to write")
+		tmp := fs.String("tmp", os.TempDir(), "scratch directory")
+		seed := fs.Int64("seed", 1, "seed (key derivation)")
+		names := fs.String("names", "", "comma separated scenario names (default all)")
+		evm := fs.Bool("evm", false, "project contract storage/code")
+		scdir := fs.String("scenarios", "", "directory to save the scenarios to")
+		_ = fs.Parse(args)
+		f, err := os.Create(*out)
+		if err != nil {
+			return err
+		}
+		defer f.Close()
+		sink := appdrv.NewSink(f)
+		var list []string
+		if *names != "" {
+			list = strings.Split(*names, ",")
+		}
+		scs, err := appdrv.RunDirected(list, *seed, *tmp, sink.Emit, *evm)
+		if err != nil {
+			return err
+		}
+		if *scdir != "" {
+			for n, sc := range scs {
+				_ = appdrv.SaveScenario(sc, filepath.Join(*scdir, "dir-"+n+".json"))
+			}
+		}
+		sink.Flush()
+		fmt.Printf("{\"traces\":%d,\"events\":%d}\n", len(scs), sink.N)
+		return nil
+	})
+}
+
+func init() {
+	register("replay", "re-execute a saved scenario on a fresh replica and record the trace", func(args []string) error {
+		fs := flag.NewFlagSet("replay", flag.ExitOnError)
+		in := fs.String("scenario", "", "scenario JSON file")
+		out := fs.String("out", "", "ndjson trace to write")
+		tmp := fs.String("tmp", os.TempDir(), "scratch directory")
+		name := fs.String("name", "A", "replica name")
+		evm := fs.Bool("evm", false, "project contract storage/code")
+		noproj := fs.Bool("noproj", false, "record responses only")
+		_ = fs.Parse(args)
+		sc, err := appdrv.LoadScenario(*in)
+		if err != nil {
+			return err
+		}
+		f, err := os.Create(*out)
+		if err != nil {
+			return err
+		}
+		defer f.Close()
+		sink := appdrv.NewSink(f)
+		root, err := os.MkdirTemp(*tmp, "rep-")
+		if err != nil {
+			return err
+		}
+		defer os.RemoveAll(root)
+		r, err := appdrv.Replay(sc, *name, root, sink.Emit, appdrv.ProjOpts{EVM: *evm}, *noproj)
+		if err != nil {
+			return err
+		}
+		sink.Flush()
+		fmt.Printf("{\"traces\":1,\"events\":%d,\"dead\":%q}\n", sink.N, r.Dead)
 		return nil
 	})
 }
